@@ -23,7 +23,7 @@ func init() {
 }
 
 func runC06(w *World, r *Report) {
-	r.Rule("declen", "stored length fields the size rules rely on are kept equal to the element size by every constructor and builder", 14)
+	r.Rule("declen", "stored length fields the size rules rely on are kept equal to the element size by every constructor and builder", 13)
 	declenRule(w, r)
 	r.Rule("size", "sizeM ≡ sizeL (and extentM ≡ sizeL up to round8) as symbolic terms, per kind", 100)
 	r.Rule("embed", "child encodings are copied whole", 60)
